@@ -18,7 +18,7 @@ FEATURES = [
     "kern_block", "fractional", "quadratic", "cubic", "ttx_data", "vertical",
     "prodnames_off", "meta", "instructions_off", "dottedcircle", "ds_skipexport",
     "openinfo", "background_layer", "glyph_lib", "empty_glyph", "underline_pos", "ds5_vfs",
-    "multi_anchor", "tt_instructions", "colrv1", "contextual_anchor",
+    "multi_anchor", "tt_instructions", "colrv1", "contextual_anchor", "fea_include",
 ]
 
 # name, unicodes, kind
@@ -134,6 +134,11 @@ def gen_family(rng, force=(), forbid=(), n_masters=None, max_glyphs=14, p_sparse
         on.add("composites")
     if "mkmk" in on:
         on.add("marks")
+    if "dottedcircle" in on:
+        # DottedCircleFilter.ensure_base parses the feature file without any include
+        # directory (filters never see feaIncludeDir), so a memory-built font with
+        # include() cannot use that filter at all - not a combination worth generating
+        on.discard("fea_include")
     if not ({"cubic", "quadratic"} & on):
         on.add(rng.choice(["cubic", "quadratic", "cubic"]))
     spec = {"frac": "fractional" in on, "cubic": "cubic" in on, "quad": "quadratic" in on}
@@ -467,6 +472,11 @@ def gen_family(rng, force=(), forbid=(), n_masters=None, max_glyphs=14, p_sparse
         m = [n for n, _, r in roster if r.startswith("mark")]
         fea.append("table GDEF {\n    GlyphClassDef [%s], [%s], [%s], ;\n} GDEF;" % (
             " ".join(b), " ".join(l), " ".join(m)))
+    include_files = {}
+    if "fea_include" in on and len(base_names) >= 2:
+        # part of the feature code lives in a separate file next to the UFO
+        include_files["extra_classes.fea"] = "@INC = [%s];\n" % " ".join(base_names[:2])
+        fea.insert(0, "include(extra_classes.fea);")
     features = "\n\n".join(fea)
     if features:
         features += "\n"
@@ -833,6 +843,7 @@ def gen_family(rng, force=(), forbid=(), n_masters=None, max_glyphs=14, p_sparse
             dcats[marks[0][0]] = "mark"
         dslib["public.openTypeCategories"] = dcats
     fam = {"features_on": sorted(on), "upm": upm, "axes": axes, "masters": masters, "source_order": source_order,
+           "include_files": include_files,
            "sparse": sparse, "rules": rules, "instances": instances, "dslib": dslib,
            "variable_fonts": variable_fonts}
     return fam
